@@ -241,3 +241,16 @@ Example perm_invariant_example :
 Proof.
   cbv zeta. split; [repeat constructor|]. split; [exact swo_aSubPrio|]. vm_compute. auto.
 Qed.
+
+(* hypotheses of sortQueue_plain_is_ssort / sortQueue_perm_invariant_partial on a non-trivial set:
+   three queues with different shares (5 %, 100 %, 30 %), equal pending *)
+Example sortQueue_plain_example :
+  let l := [pa; pb; pc] in
+  (forall a b, In a l -> In b l -> queue_lt 1 false a b = queue_keys_lt 1 false a b) /\
+  queue_keys_lt 1 false pc pb = true /\
+  map q_id (sortQueue 1 false l) = [1; 3; 2]%N /\ map q_id (ssort (queue_keys_lt 1 false) l) = [1; 3; 2]%N.
+Proof.
+  cbv zeta. split; [|vm_compute; auto].
+  intros a b Ha Hb. simpl in Ha, Hb.
+  destruct Ha as [<-|[<-|[<-|[]]]], Hb as [<-|[<-|[<-|[]]]]; vm_compute; reflexivity.
+Qed.
